@@ -1,6 +1,6 @@
 (* C39 -- One interpreter can safely be used from many goroutines.
    Property theorems only; every proof is [exact <lemma>]. *)
-From verif Require Import lib.Base model.C39 proofs.C39_proofs proofs.C39_serial proofs.C39_disjoint proofs.C39_full.
+From verif Require Import lib.Base model.C39 proofs.C39_proofs proofs.C39_serial proofs.C39_disjoint proofs.C39_full proofs.C39_complete.
 Open Scope N_scope.
 
 (* For ALL job sets (Eval / Check / Call) that import only modules that are
@@ -112,6 +112,13 @@ Theorem C39_serializable_refuted :
       (obs_of (run sched (init g0 st0 [] js)) (length js)) = false.
 Proof. exact serializable_refuted. Qed.
 Print Assumptions C39_serializable_refuted.
+
+(* ... and complete: it accepts EVERY observation that some serial order of the
+   jobs produces, so the oracle demands exactly that and nothing more. *)
+Theorem C39_acceptor_complete : forall setup js o,
+  SerialOutcome setup js o -> serial_outcome_ok setup js o = true.
+Proof. exact serial_outcome_ok_complete. Qed.
+Print Assumptions C39_acceptor_complete.
 
 (* ---- non-vacuity ---- *)
 (* the acceptor accepts an outcome of the order job 1, job 0 ... *)
